@@ -52,7 +52,7 @@ CHECKS.update({
          "Trusts the harness's multiset line diff and the dump helper (repository's own cgo iterator).","4/C08"),
  "C05": ("exploration","offline checker over recorded client-boundary histories (generation stamps) produced by scheduled interleavings at verif yield points, sequential reload chains and free-running stress under the race detector",
          "Every record carries its generation; a scheduler parks one query at each of its 7 yield points while a reload of each kind (full/partial ok, missing path, unreadable, missing validation key, 1 ns timeout) runs to each of its 4 points or to completion, on CDB/RocksDB v1/v2 with cache on/off; chains of mixed reloads and an 8-client stress run feed the same checker: single generation per response, visibility after a returned reload, per-client monotonicity, failed targets never observed.",
-         "Covers the produced interleavings only (listed as hook-point sequences). Two RocksDB partial-reload findings are suppressed by predicate on the history. Crash containment: scheduled runs in child processes.","4/C05"),
+         "Covers the produced interleavings only (listed as hook-point sequences), including queries started while a reload is held after the switch, reload chains with switch-backs, same-path full reloads and control-file requests. Two RocksDB partial-reload findings are suppressed by predicate on the history. Crash containment: scheduled runs in child processes.","4/C05"),
  "C12": ("exploration","differential runtime monitor (cache on vs off on the same query history) plus scheduled stale-insert interleavings at verif yield points decided by a generation-stamp rule; stress child under the race detector",
          "(a) two real handlers over the same database, cache on/off, receive the same generated query history with heavy key reuse across clients, types, EDNS variants and letter case; every response pair must be canonically equal. (b) with generation-stamped data and the cache on, a query is parked at each point up to the cache insertion while a full/partial reload completes (or is parked after the purge) and then resumed; queries started after the reload returned must not carry an older stamp, for positive, NXDOMAIN, referral and wildcard entries.",
          "WRSTimeout 0. Equality is up to owner-name case and random address choice (max-answer >= candidates) and includes opcode and the RD/RA/AD/CD/Z bits (queries vary RD and CD).","4/C12"),
@@ -67,7 +67,7 @@ CHECKS.update({
          "(c) depends on the real clock (the code has no clock seam): ambiguous observations are skipped and counted. Bare SERVFAIL replies are treated as failure replies, not composed responses.","4/C19"),
  "C20": ("exploration","differential runtime monitor: replies of a real fbserver.Server over loopback UDP/TCP vs the bare handler in-process, per front-handler configuration, race-detector build",
          "Starts the real server (UDP+TCP) on a loopback port for combinations of backend, whoami domain, ANY refusal and max-answer, sends generated queries with a DNS client over UDP (no EDNS/512/1232/4096, with and without ECS) and TCP and compares every reply canonically with FBDNSDB.ServeDNS on the same database, remote address and max-answer; oversized answers must be truncated within the advertised size over UDP (actual datagram length) and complete over TCP; refused ANY must be the single synthesized HINFO; whoami queries answered by the whoami handler; a question-less message gets a failure rcode and the server survives; shutdown under load.",
-         "Loopback sockets only; address records compared by owner and type (weighted choice is random); header bits (opcode, RD/RA/AD/CD/Z) are part of the comparison. TLS listeners are not exercised.","4/C20"),
+         "Loopback sockets only (one scenario asks from 127.0.0.2 while the listener is on 127.0.0.1); address records compared by owner and type (weighted choice is random); header bits (opcode, RD/RA/AD/CD/Z) are part of the comparison. TLS listeners are not exercised.","4/C20"),
 })
 BUILT = set(CHECKS)
 ALL = [json.loads(l)["id"] for l in open("properties.jsonl")]
